@@ -1,7 +1,7 @@
 """Implementation side of the query-family correspondence: builds each case through the PUBLIC API only and
 observes the rows, with caching disabled and enabled, first evaluation and re-evaluation."""
 import sys, json, operator, signal, gc
-from dataclasses import dataclass
+from dataclasses import dataclass, field
 from typing import Optional, Any
 from entity_query_language import *
 from entity_query_language.entity import for_all, flatten, concatenate
@@ -49,6 +49,24 @@ class P:
 class H:
     """the class a rule head constructs (C11)"""
     h0: Any = None
+    h1: Any = None
+    h2: Any = None
+    h3: Any = None
+
+
+@symbol
+@dataclass(eq=False)
+class HBase:
+    """a base class with a keyword-only field: its position in the field list is not its position in the signature"""
+    origin: Any = field(default='base', kw_only=True)
+
+
+@symbol
+@dataclass(eq=False)
+class HK(HBase):
+    """a rule head whose positional parameters are interleaved with keyword-only ones (C11: positional head arguments)"""
+    h0: Any = None
+    weight: Any = field(default=7, kw_only=True)
     h1: Any = None
     h2: Any = None
     h3: Any = None
@@ -350,7 +368,13 @@ class Builder:
         if case.get('infer'):
             # infer(entity(H(h0=e0, ...), conditions)): the selected expressions of the case are the constructor arguments
             from entity_query_language.entity import infer
-            head = H(**{f'h{i}': s_ for i, s_ in enumerate(sel)})
+            style = case.get('head_style', 'kw')
+            if style == 'kw':
+                head = H(**{f'h{i}': s_ for i, s_ in enumerate(sel)})
+            elif style == 'pos':
+                head = HK(*sel)                              # positional arguments, keyword-only parameters in between
+            else:
+                head = HK(sel[0], weight=3, **{f'h{i}': s_ for i, s_ in enumerate(sel) if i > 0})
             return infer(entity(head, *conds)), sel
         quant = the if case.get('quant') == 'the' else an
         if case.get('form') == 'entity':
@@ -363,7 +387,9 @@ def rows_of(q, sel, form, objs, quant=None):
     out = []
     if form == 'infer':
         made = list(q.evaluate())
-        if any(type(o) is not H for o in made) or len({id(o) for o in made}) != len(made):
+        if any(type(o) not in (H, HK) for o in made) or len({id(o) for o in made}) != len(made):
+            return 'X not-new-instances'
+        if any(type(o) is HK and (o.origin != 'base' or o.weight not in (3, 7)) for o in made):
             return 'X not-new-instances'
         for o in made:
             vals = [getattr(o, f'h{i}') for i in range(len(sel))]
